@@ -34,7 +34,11 @@ let kappa_of (fn : string) (tn : string) : ZT.t =
 
 let parse_case (c : string) : (profile * ZT.t * ZT.t) option =
   match split_blank c with
-  | ["const"; on; m; d] -> Some (PConst (q_of_ints on m, z_of_string d), ZT.of_string d, ZT.zero)
+  | ["const"; on; m; d] ->
+      (* a rate below 0 is not a valid configuration; NewConst (callable around the validation) states
+         "if ops < 0 { ops = 0 }": judged as the rate-0 profile of the same duration *)
+      let on = if ZT.sign (ZT.of_string on) < 0 then "0" else on in
+      Some (PConst (q_of_ints on m, z_of_string d), ZT.of_string d, ZT.zero)
   | ["line"; fn; tn; m; d] -> Some (PLine (q_of_ints fn m, q_of_ints tn m, z_of_string d), ZT.of_string d, kappa_of fn tn)
   | ["step"; fn; tn; m; st; d] -> Some (PStep (q_of_ints fn m, q_of_ints tn m, z_of_string st, z_of_string d), ZT.of_string d, ZT.zero)
   | ["once"; n] -> Some (POnce (z_of_string n), ZT.zero, ZT.zero)
